@@ -23,6 +23,7 @@ func init() {
 		c19Cancelled(c, "C19.5")
 		upgradeAttemptConcludedOnce(c, "C19.6")
 		c19RefreshOnlyLive(c, "C19.7")
+		c19AtomicDeadlineReplace(c, "C19.8")
 		c19LoopStop(c)
 		c19Pairing(c)
 		c19WhoClears(c)
@@ -426,7 +427,7 @@ func c19LoopStop(c *core.Ctx) {
 			for _, a := range fieldAssigns(st, "Timer.cancelled") {
 				every := true
 				for _, r := range returnsIn(st) {
-					every = every && g.Dominates(a.Loc, r.Loc)
+					every = every && (g.Dominates(a.Loc, r.Loc) || g.GuardedBy(r.Loc, timerCancelledIs(true)))
 				}
 				flag = flag || every
 			}
@@ -497,7 +498,7 @@ func c19Pairing(c *core.Ctx) {
 		holder := ""
 		var store *core.Call
 		for _, sc := range u.Calls() {
-			if sc.Name != "Store" || len(sc.Expr.Args) != 1 {
+			if (sc.Name != "Store" && sc.Name != "Swap") || len(sc.Expr.Args) != 1 {
 				continue
 			}
 			arg := ast.Unparen(sc.Expr.Args[0])
@@ -521,6 +522,10 @@ func c19Pairing(c *core.Ctx) {
 			prevCleared := false
 			for _, cc := range u.CallsTo(clearTOKey, clearIVKey) {
 				if timerHolder(info, cc.Arg(0)) == holder && g.Dominates(cc.Loc, store.Loc) {
+					prevCleared = true
+				}
+				// ClearTimeout(holder.Swap(new)): what the swap replaced is what is cancelled
+				if store.Name == "Swap" && ast.Unparen(cc.Arg(0)) == ast.Expr(store.Expr) {
 					prevCleared = true
 				}
 			}
@@ -742,7 +747,7 @@ func c19RuntimeTimerOps(c *core.Ctx) {
 // silently turns the next Refresh into a no-op, i.e. the deadline or the next
 // ping is lost. The holders are therefore written only with a fresh timer.
 func c19HolderWrites(c *core.Ctx, R string) {
-	c.Rule(R, "WHO(write a heartbeat timer holder): socket.pingIntervalTimer / socket.pingTimeoutTimer are written only by Store(SetTimeout(…)) — no Store(nil), Swap or CompareAndSwap anywhere: the uses are nil-tested, so an emptied holder silently drops the next Refresh (the v3 deadline after an upgrade, the next v4 ping)")
+	c.Rule(R, "WHO(write a heartbeat timer holder): socket.pingIntervalTimer / socket.pingTimeoutTimer are written only by Store(SetTimeout(…)) or Swap(SetTimeout(…)) — no Store(nil), Swap(nil) or CompareAndSwap anywhere: the uses are nil-tested, so an emptied holder silently drops the next Refresh (the v3 deadline after an upgrade, the next v4 ping)")
 	n := 0
 	for _, u := range c.P.Units {
 		if u.Pkg != c.P.Pkgs["engine"] {
@@ -753,7 +758,8 @@ func c19HolderWrites(c *core.Ctx, R string) {
 				switch cl.Name {
 				case "Load":
 					continue
-				case "Store":
+				case "Store", "Swap":
+					// Swap(fresh timer) is the atomic form of "replace and cancel what was there" (fix d9973f6)
 					n++
 					c.Touch(u)
 					ok := false
@@ -765,7 +771,7 @@ func c19HolderWrites(c *core.Ctx, R string) {
 							}
 						}
 					}
-					c.Check(R, keyf("%s/%s.Store(fresh timer)", u.Key, h), cl.Pos(), ok, "the holder receives a timer that was just created")
+					c.Check(R, keyf("%s/%s.%s(fresh timer)", u.Key, h, cl.Name), cl.Pos(), ok, "the holder receives a timer that was just created")
 				default:
 					n++
 					c.Touch(u)
@@ -818,7 +824,8 @@ func c19Cancelled(c *core.Ctx, R string) {
 			}
 			every := true
 			for _, r := range returnsIn(u) {
-				every = every && g.Dominates(a.Loc, r.Loc)
+				// a return ahead of the write is the idempotent exit: the flag is already set (fix 312fac8)
+				every = every && (g.Dominates(a.Loc, r.Loc) || g.GuardedBy(r.Loc, timerCancelledIs(true)))
 			}
 			// the runtime timer is stopped in the same critical section
 			same := false
@@ -850,6 +857,18 @@ func c19Cancelled(c *core.Ctx, R string) {
 			c.Check(R, keyf("%s/read(cancelled)#%d", u.Key, reads), se.Pos(), g.HeldAt(g.LocOf(se))[muName], "the flag is read with Timer.mu held")
 			return true
 		})
+	}
+	if st := c.Fn(R, timerStopKey); st != nil {
+		g := st.Graph()
+		n, first := 0, true
+		ast.Inspect(st.Body, func(x ast.Node) bool {
+			if ss, ok := x.(*ast.SendStmt); ok && fieldOf(st.Info(), ss.Chan) == "Timer.stopCh" {
+				n++
+				first = first && g.GuardedBy(g.LocOf(ss), timerCancelledIs(false))
+			}
+			return true
+		})
+		c.Check(R, timerStopKey+"/signal-only-by-the-first-Stop", st.Pos(), n >= 1 && first, "a Stop that finds the timer already cancelled returns: the runtime can report 'stopped' to two callers while a tick is being sent, and only one goroutine is there to take the signal (fix 312fac8)")
 	}
 	c.Need(R, "writes of Timer.cancelled", writes, 1)
 	c.Need(R, "reads of Timer.cancelled", reads, 3)
@@ -959,4 +978,38 @@ func c19RefreshOnlyLive(c *core.Ctx, R string) {
 		}
 	}
 	c.Need(R, "Refresh calls in package engine", n, 1)
+}
+
+// c19AtomicDeadlineReplace — C19.8 = C07.13 (fix d9973f6): resetPingTimeout is
+// called from several goroutines (onOpen, the ping callback, the revision-3
+// PING branch on the reader goroutine); "cancel the old timer, store the new
+// one" must be one atomic replace, or two callers both cancel the same old
+// timer and one of the two new ones stays armed and unreferenced.
+func c19AtomicDeadlineReplace(c *core.Ctx, R string) {
+	c.Rule(R, "the ping deadline is replaced atomically: resetPingTimeout writes socket.pingTimeoutTimer with Swap(SetTimeout(…)) and cancels exactly what the swap returned — a Load / ClearTimeout / Store sequence is check-then-act between its concurrent callers and leaves an armed timer nobody can cancel (a pinging session closed with 'ping timeout')")
+	u := c.Fn(R, "engine.(*socket).resetPingTimeout")
+	if u == nil {
+		return
+	}
+	var swap *core.Call
+	stores := 0
+	for _, cl := range fieldCalls(u, "socket.pingTimeoutTimer") {
+		switch cl.Name {
+		case "Swap":
+			swap = cl
+		case "Store", "CompareAndSwap":
+			stores++
+		}
+	}
+	cancelled := false
+	if swap != nil {
+		for _, cc := range u.CallsTo(clearTOKey, clearIVKey) {
+			if ast.Unparen(cc.Arg(0)) == ast.Expr(swap.Expr) {
+				cancelled = true
+			} else if d, ok := u.SingleDef(cc.Arg(0)); ok && d != nil && ast.Unparen(d) == ast.Expr(swap.Expr) {
+				cancelled = true
+			}
+		}
+	}
+	c.Check(R, "engine.(*socket).resetPingTimeout/Swap(new)+cancel(replaced)", u.Pos(), swap != nil && stores == 0 && cancelled, keyf("holder written by one Swap: %v; other writes: %d; the replaced timer is the one cancelled: %v", swap != nil, stores, cancelled))
 }
